@@ -23,6 +23,16 @@ def programs(tier):
             if f.endswith(".eql"):
                 with open(os.path.join(gdir, f)) as fh:
                     out.append((f[:-4], fh.read()))
+    if tier == "thorough":
+        # every small rule `if A; [if B;] then C;` of the C10 enumeration that the reference static
+        # semantics finds well-formed: hundreds of further rule shapes for the code generator
+        import c10, refstatic
+        for label, text in c10.enumerated_rules():
+            try:
+                if not refstatic.analyse(text).present:
+                    out.append((label, text))
+            except Exception:
+                pass
     if tier == "quick":
         quick = [p for p in out if modelgen.read_meta(p[1]).get("quick")]
         rest = [p for p in out if not modelgen.read_meta(p[1]).get("quick")]
